@@ -5,6 +5,16 @@ Corners:
       structural signatures equal; every concrete class of the reloaded package instantiable (abstract ones refuse);
       an instance document saved against the original loads against the reloaded metamodel into the same canonical dump
       as against the original; the shipped corpus tests/xmi/xmi-tests/*.ecore: load -> save -> load, same signature.
+      Scenario families with their own PRNG streams (replayed by common.scenario_replay):
+      'resave'  : the live metamodel (the built one, or the one loaded from the first file) is refactored by a random
+                  history (rename classifier/feature/package, move classifier/package, new sub-package, insert/remove
+                  class, add feature typed by a moved class, reorder, add a root package) and saved again through the
+                  SAME resource object (own URI / other file / other directory) 3-4 times; every file reloads into the
+                  signature of the live metamodel; failing histories and descriptions are shrunk.
+      'enumlit' : enumerations whose literals carry `literal` display strings and values different from their names;
+                  name/value/literal survive the trip (('EEnumLiteral','literal') is a signature feature), and instance
+                  documents holding such literals (single, many, default value literal) saved against the original load
+                  against the reloaded metamodel -- and the other way round -- into the model that was saved.
   correspondence (ties coq/Gen/EcoreMM.v, i.e. the translator's reading of pyecore/ecore.py, to the running library):
       (a) every row of the generated table against the live reflection of pyecore.ecore (names, kinds, types, bounds,
           containment, derived/transient, effective eOpposite),
@@ -40,7 +50,7 @@ SIGNATURE_FEATURES = [
     ('EReference', 'transient'), ('EReference', 'changeable'), ('EReference', 'volatile'),
     ('EReference', 'unsettable'), ('EReference', 'eOpposite'), ('EReference', 'eAnnotations'),
     ('EEnum', 'name'), ('EEnum', 'eLiterals'), ('EEnum', 'eAnnotations'),
-    ('EEnumLiteral', 'name'), ('EEnumLiteral', 'value'),
+    ('EEnumLiteral', 'name'), ('EEnumLiteral', 'value'), ('EEnumLiteral', 'literal'),
     ('EDataType', 'name'), ('EDataType', 'instanceClassName'), ('EDataType', 'eAnnotations'),
     ('EOperation', 'name'), ('EOperation', 'eType'), ('EOperation', 'lowerBound'), ('EOperation', 'upperBound'),
     ('EOperation', 'ordered'), ('EOperation', 'unique'), ('EOperation', 'eParameters'), ('EOperation', 'eExceptions'),
@@ -475,8 +485,11 @@ def build(desc):
                 x = E.EClass(c['name'], abstract=c['abstract'])
             elif c['kind'] == 'enum':
                 x = E.EEnum(c['name'])
-                for ln, lv in c['literals']:
-                    x.eLiterals.append(E.EEnumLiteral(ln, value=lv))
+                for lit in c['literals']:
+                    el = E.EEnumLiteral(lit[0], value=lit[1])
+                    if len(lit) > 2 and lit[2] is not None:
+                        el.literal = lit[2]            # the display string; may differ from the name in any way
+                    x.eLiterals.append(el)
                 if c.get('default'):
                     x.default_value = c['default']
             else:
@@ -1124,6 +1137,790 @@ def coq_signature_features():
     return [(a, b) for a, b in re.findall(r'\("(\w+)",\s*"(\w+)"\)', m.group(1))] if m else None
 
 
+# --------------------------------------------------------------------------- edit-and-resave trips
+#
+# The property is not only about the first save of a freshly built metamodel: a metamodel that lives in a resource is
+# edited (renamed, reorganised, extended) and saved again through the SAME resource object, and each of those saves must
+# give a file that reloads into a metamodel structurally equal to the live one.  A history is a list of trips
+# {'save': where, 'ops': [...]}; the ops of a trip are applied to the live metamodel (elements are addressed by names
+# from a root package: [root index, sub-package names..., classifier name]), then the resource is saved (to its own
+# URI, to another file, to a file in another directory), reloaded in a fresh ResourceSet and compared.
+
+class _BadHistory(Exception):
+    """an op of a (shrunk) history does not apply to the metamodel any more"""
+
+
+def _res_roots(res):
+    return list(res.contents)
+
+
+def _find_pkg(roots, ppath):
+    try:
+        p = roots[ppath[0]]
+        for n in ppath[1:]:
+            p = next(s for s in p.eSubpackages if s.name == n)
+        return p
+    except (StopIteration, IndexError):
+        raise _BadHistory(f'no package {ppath}')
+
+
+def _find_classifier(roots, cpath):
+    p = _find_pkg(roots, cpath[:-1])
+    c = next((c for c in p.eClassifiers if c.name == cpath[-1]), None)
+    if c is None:
+        raise _BadHistory(f'no classifier {cpath}')
+    return c
+
+
+def _find_feature(roots, cpath, fname):
+    c = _find_classifier(roots, cpath)
+    f = next((f for f in getattr(c, 'eStructuralFeatures', []) if f.name == fname), None)
+    if f is None:
+        raise _BadHistory(f'no feature {cpath} {fname}')
+    return f
+
+
+def _ppath(roots, p):
+    names = []
+    while p.eSuperPackage is not None:
+        names.append(p.name)
+        p = p.eSuperPackage
+    ri = next(i for i, r in enumerate(roots) if r is p)
+    return [ri] + list(reversed(names))
+
+
+def _cpath(roots, c):
+    return _ppath(roots, c.ePackage) + [c.name]
+
+
+def _reinsert(coll, x, idx):
+    """x to position idx of its own collection (public collection API: remove, insert)"""
+    coll.remove(x)
+    coll.insert(min(idx, len(coll)), x)
+
+
+def apply_op(res, op):
+    E = ecore()
+    roots = _res_roots(res)
+    k = op[0]
+    if k == 'rename-classifier':
+        _find_classifier(roots, op[1]).name = op[2]
+    elif k == 'rename-feature':
+        _find_feature(roots, op[1], op[2]).name = op[3]
+    elif k == 'rename-package':
+        _find_pkg(roots, op[1]).name = op[2]
+    elif k == 'new-subpackage':
+        parent = _find_pkg(roots, op[1])
+        parent.eSubpackages.append(E.EPackage(op[2], nsURI=f'{parent.nsURI}/{op[2]}', nsPrefix=op[2]))
+    elif k == 'move-classifier':
+        c, dest = _find_classifier(roots, op[1]), _find_pkg(roots, op[2])
+        if op[3] is None:
+            dest.eClassifiers.append(c)
+        else:
+            dest.eClassifiers.insert(min(op[3], len(dest.eClassifiers)), c)
+    elif k == 'move-package':
+        p, dest = _find_pkg(roots, op[1]), _find_pkg(roots, op[2])
+        if len(op[1]) < 2:
+            raise _BadHistory('a root package is not moved')
+        dest.eSubpackages.append(p)
+    elif k == 'insert-class':
+        p = _find_pkg(roots, op[1])
+        c = E.EClass(op[3], abstract=bool(op[5]))
+        if op[4] is not None:
+            c.eSuperTypes.append(_find_classifier(roots, op[4]))
+        p.eClassifiers.insert(min(op[2], len(p.eClassifiers)), c)
+    elif k == 'remove-classifier':
+        c = _find_classifier(roots, op[1])
+        c.ePackage.eClassifiers.remove(c)
+    elif k == 'add-ref':
+        owner, target = _find_classifier(roots, op[1]), _find_classifier(roots, op[3])
+        owner.eStructuralFeatures.append(E.EReference(op[2], target, upper=op[4]))
+    elif k == 'add-attr':
+        owner, t = _find_classifier(roots, op[1]), _find_classifier(roots, op[3])
+        owner.eStructuralFeatures.append(E.EAttribute(op[2], t, upper=op[4]))
+    elif k == 'reorder-classifier':
+        c = _find_classifier(roots, op[1])
+        _reinsert(c.ePackage.eClassifiers, c, op[2])
+    elif k == 'reorder-feature':
+        f = _find_feature(roots, op[1], op[2])
+        _reinsert(f.eContainingClass.eStructuralFeatures, f, op[3])
+    elif k == 'add-root':
+        p = E.EPackage(op[1], nsURI=f'http://verif/c10/{op[1]}', nsPrefix=op[1])
+        p.eClassifiers.append(E.EClass(op[2]))
+        if op[3] == 'front':
+            for r in roots:
+                res.remove(r)
+            res.append(p)
+            for r in roots:
+                res.append(r)
+        else:
+            res.append(p)
+    else:
+        raise _BadHistory(f'unknown op {op}')
+
+
+def _referenced_classifiers(roots):
+    """ids of the classifiers something else points to (type, supertype, exception) -> how often, from outside itself"""
+    E = ecore()
+    ref = {}
+
+    def note(owner, t):
+        if t is None:
+            return
+        t = t.eClass if isinstance(t, type) else t
+        if t is not owner:
+            ref[id(t)] = ref.get(id(t), 0) + 1
+    for c in all_eclasses(roots):
+        for s in c.eSuperTypes:
+            note(c, s)
+        for f in c.eStructuralFeatures:
+            note(c, f.eType)
+        for o in c.eOperations:
+            note(c, o.eType)
+            for x in o.eExceptions:
+                note(c, x)
+            for q in o.eParameters:
+                note(c, q.eType)
+    return ref
+
+
+class _EditState:
+    def __init__(self):
+        self.n = 0
+        self.moved = []          # live classes whose fragment changed since the first save (moved, renamed)
+        self.renamed_features = set()      # ids (the features are kept alive in self.keep)
+        self.keep = []
+
+    def fresh(self, prefix):
+        self.n += 1
+        return f'{prefix}{self.n}'
+
+
+EDIT_KINDS = ['rename-classifier'] * 4 + ['rename-feature'] * 2 + ['rename-package'] * 2 + ['move-classifier'] * 3 \
+    + ['move-to-new-subpackage'] * 3 + ['move-package'] + ['insert-class'] * 3 + ['remove-classifier'] * 2 \
+    + ['add-ref'] * 3 + ['add-attr'] + ['reorder-classifier'] * 2 + ['reorder-feature'] + ['add-root']
+
+
+def gen_edit(rng, res, st):
+    """One refactoring step that is legal on the live metamodel (names stay unique: every new name is fresh)
+    -> list of ops (mostly one)."""
+    E = ecore()
+    roots = _res_roots(res)
+    pkgs = list(all_packages(roots))
+    classifiers = [c for p in pkgs for c in p.eClassifiers]
+    classes = [c for c in classifiers if isinstance(c, E.EClass)]
+    live_moved = [c for c in st.moved if c.ePackage is not None and c.eResource is res]
+
+    def names_in(p):
+        return {c.name for c in p.eClassifiers} | {s.name for s in p.eSubpackages}
+
+    for _ in range(8):
+        kind = rng.choice(EDIT_KINDS)
+        if kind == 'rename-classifier' and classifiers:
+            c = rng.choice(classifiers)
+            op = ['rename-classifier', _cpath(roots, c), st.fresh('Rn')]
+            if isinstance(c, E.EClass):
+                st.moved.append(c)
+            return [op]
+        if kind == 'rename-feature':
+            cand = [c for c in classes if len(c.eStructuralFeatures)]
+            if cand:
+                c = rng.choice(cand)
+                f = rng.choice(list(c.eStructuralFeatures))
+                st.renamed_features.add(id(f))
+                st.keep.append(f)
+                return [['rename-feature', _cpath(roots, c), f.name, st.fresh('rf')]]
+        if kind == 'rename-package':
+            p = rng.choice(pkgs)
+            st.moved.extend(all_eclasses(p))
+            return [['rename-package', _ppath(roots, p), st.fresh('rp')]]
+        if kind == 'move-classifier' and classifiers and len(pkgs) > 1:
+            c = rng.choice(classifiers)
+            dests = [p for p in pkgs if p is not c.ePackage and c.name not in names_in(p)]
+            if dests:
+                dest = rng.choice(dests)
+                if isinstance(c, E.EClass):
+                    st.moved.append(c)
+                return [['move-classifier', _cpath(roots, c), _ppath(roots, dest),
+                         rng.choice([None, None, 0, 1])]]
+        if kind == 'move-to-new-subpackage' and classifiers:
+            c = rng.choice(classifiers)
+            parent = rng.choice(pkgs)
+            nm = st.fresh('np')
+            if isinstance(c, E.EClass):
+                st.moved.append(c)
+            return [['new-subpackage', _ppath(roots, parent), nm],
+                    ['move-classifier', _cpath(roots, c), _ppath(roots, parent) + [nm], None]]
+        if kind == 'move-package':
+            subs = [p for p in pkgs if p.eSuperPackage is not None]
+            if subs:
+                p = rng.choice(subs)
+                below = set(map(id, all_packages(p)))
+                dests = [d for d in pkgs if id(d) not in below and d is not p.eSuperPackage
+                         and p.name not in names_in(d)]
+                if dests:
+                    st.moved.extend(all_eclasses(p))
+                    return [['move-package', _ppath(roots, p), _ppath(roots, rng.choice(dests))]]
+        if kind == 'insert-class':
+            p = rng.choice(pkgs)
+            sup = None
+            if classes and rng.random() < 0.6:
+                sup = _cpath(roots, rng.choice(live_moved if live_moved and rng.random() < 0.7 else classes))
+            return [['insert-class', _ppath(roots, p), rng.randint(0, len(p.eClassifiers)), st.fresh('Nw'), sup,
+                     rng.random() < 0.2]]
+        if kind == 'remove-classifier' and len(classes) > 1:
+            ref = _referenced_classifiers(roots)
+            cand = [c for c in classifiers if id(c) not in ref and not (isinstance(c, E.EClass) and len(classes) < 2)]
+            if cand:
+                return [['remove-classifier', _cpath(roots, rng.choice(cand))]]
+        if kind == 'add-ref' and classes:
+            owner = rng.choice(classes)
+            target = rng.choice(live_moved if live_moved and rng.random() < 0.75 else classes)
+            return [['add-ref', _cpath(roots, owner), st.fresh('ar'), _cpath(roots, target), rng.choice([1, -1])]]
+        if kind == 'add-attr' and classes:
+            types = [c for c in classifiers if not isinstance(c, E.EClass)]
+            if types:
+                return [['add-attr', _cpath(roots, rng.choice(classes)), st.fresh('aa'),
+                         _cpath(roots, rng.choice(types)), rng.choice([1, -1])]]
+        if kind == 'reorder-classifier':
+            cand = [p for p in pkgs if len(p.eClassifiers) > 1]
+            if cand:
+                p = rng.choice(cand)
+                c = rng.choice(list(p.eClassifiers))
+                return [['reorder-classifier', _cpath(roots, c), rng.randrange(len(p.eClassifiers))]]
+        if kind == 'reorder-feature':
+            # a feature that was renamed is left where it is: taking a renamed feature out of its class raises
+            # (the Python mirror of the class still holds it under the old name) -- C12's subject, not C10's
+            cand = [c for c in classes if len(c.eStructuralFeatures) > 1
+                    and any(id(f) not in st.renamed_features for f in c.eStructuralFeatures)]
+            if cand:
+                c = rng.choice(cand)
+                f = rng.choice([f for f in c.eStructuralFeatures if id(f) not in st.renamed_features])
+                return [['reorder-feature', _cpath(roots, c), f.name, rng.randrange(len(c.eStructuralFeatures))]]
+        if kind == 'add-root' and len(roots) < 4:
+            st.moved.extend(all_eclasses(roots))
+            return [['add-root', st.fresh('nr'), st.fresh('Nw'), rng.choice(['front', 'back'])]]
+    p = rng.choice(pkgs)
+    return [['insert-class', _ppath(roots, p), 0, st.fresh('Nw'), None, False]]
+
+
+def _trip_compare(res, trip, tmp, k, inst_seed=None):
+    """save the resource as the trip says, reload the file in a fresh ResourceSet, compare -> failure or None"""
+    from pyecore.resources import URI
+    live = _res_roots(res)
+    try:
+        sig0 = signature_all(live)
+    except Exception as e:
+        return {'construct': 'live-metamodel-unreadable', 'what': f'trip {k}: {type(e).__name__}: {e}'[:300]}
+    where = trip['save']
+    try:
+        if where == 'same':
+            out_path = res.uri.plain
+            res.save()
+        else:
+            d = tmp if where == 'other' else os.path.join(tmp, f'dir{k}')
+            os.makedirs(d, exist_ok=True)
+            out_path = os.path.join(d, f'resaved{k}.ecore')
+            res.save(output=URI(out_path))
+    except Exception as e:
+        return {'construct': 'save-raises', 'what': f'trip {k} (save {where}): {type(e).__name__}: {e}'[:300]}
+    try:
+        rs = fresh_rset()
+        reloaded = list(rs.get_resource(URI(out_path)).contents)
+        sig1 = signature_all(reloaded)
+    except Exception as e:
+        return {'construct': 'reload-raises',
+                'what': f'trip {k} (save {where}): the file saved after the edits does not load: '
+                        f'{type(e).__name__}: {e}'[:300]}
+    if signature_all(live) != sig0:
+        return {'construct': 'save-changes-original', 'what': f'trip {k}: saving changed the live metamodel'}
+    diffs = sig_diff(sig0, sig1)
+    if diffs:
+        lab, pair, p, a, b = diffs[0]
+        return {'construct': lab, 'what': f'trip {k} (save {where}): {pair[0]}.{pair[1]} at {p}: live {a} / reloaded {b} '
+                                          f'({len(diffs)} place(s))'}
+    if inst_seed is not None:
+        probs = check_instantiable(reloaded, random.Random(inst_seed))
+        if probs:
+            return {'construct': 'instantiate', 'what': f'trip {k}: ' + '; '.join(probs[:2])}
+    return None
+
+
+def resave_case(desc, mode, tmp, trips=None, rng=None, ntrips=0, inst_seed=None, stats=None):
+    """One metamodel, several edit/save/reload trips through one resource object.
+    mode 'original': the programmatically built metamodel in the resource it was first saved from;
+    mode 'reloaded': the metamodel loaded from that first file, edited and saved through the resource it was loaded into.
+    trips given: replay them; else generate `ntrips` trips from rng.  -> (history, failure or None)"""
+    from pyecore.resources import URI
+    os.makedirs(tmp, exist_ok=True)
+    path = os.path.join(tmp, 'mm.ecore')
+    orig = build(desc)
+    rs = fresh_rset()
+    res = rs.create_resource(URI(path))
+    for r in orig:
+        res.append(r)
+    keep = [rs]
+    if mode == 'reloaded':
+        try:
+            res.save()
+            rs2 = fresh_rset()
+            res = rs2.get_resource(URI(path))
+            keep.append(rs2)
+        except Exception as e:
+            return [], {'construct': 'first-save-or-load-raises', 'what': f'{type(e).__name__}: {e}'[:300]}
+    st = _EditState()
+    history = []
+    k = 0
+    while True:
+        if trips is not None:
+            if k >= len(trips):
+                break
+            trip = trips[k]
+            try:
+                for op in trip['ops']:
+                    apply_op(res, op)
+            except _BadHistory:
+                raise
+            except Exception as e:
+                history.append(trip)
+                return history, {'construct': 'edit-raises', 'what': f'trip {k}: {op}: {type(e).__name__}: {e}'[:300]}
+        else:
+            if k >= ntrips:
+                break
+            trip = {'save': rng.choice(['same', 'same', 'other', 'other-dir']), 'ops': []}
+            if k > 0:
+                for _ in range(rng.randint(1, 4)):
+                    for op in gen_edit(rng, res, st):
+                        trip['ops'].append(op)
+                        try:
+                            apply_op(res, op)
+                        except Exception as e:
+                            history.append(trip)
+                            return history, {'construct': 'edit-raises',
+                                             'what': f'trip {k}: {op}: {type(e).__name__}: {e}'[:300]}
+                        if stats is not None:
+                            stats[op[0]] = stats.get(op[0], 0) + 1
+        history.append(trip)
+        last = (trips is None and k == ntrips - 1) or (trips is not None and k == len(trips) - 1)
+        f = _trip_compare(res, trip, tmp, k, inst_seed if last else None)
+        if stats is not None:
+            stats['trips'] = stats.get('trips', 0) + 1
+        if f:
+            return history, f
+        k += 1
+    return history, None
+
+
+def shrink_history(desc, mode, history, construct, inst_seed, max_runs=60):
+    """Greedy: drop single ops (last first), then trips left without ops (not the first), while a failure of the same
+    construct stays.  Deterministic (bounded by a number of runs, not by time)."""
+    runs = [0]
+
+    def fails(h):
+        if runs[0] >= max_runs:
+            return None
+        runs[0] += 1
+        tmp = tempfile.mkdtemp(prefix='c10h_', dir=scratch())
+        try:
+            hh, f = resave_case(desc, mode, tmp, trips=h, inst_seed=inst_seed)
+            return hh if f and f['construct'] == construct else None      # hh: the trips up to the failing one
+        except Exception:
+            return None
+        finally:
+            shutil.rmtree(tmp, ignore_errors=True)
+
+    cur = json.loads(json.dumps(history))
+    progress = True
+    while progress and runs[0] < max_runs:
+        progress = False
+        for ti in range(len(cur) - 1, -1, -1):
+            for oi in range(len(cur[ti]['ops']) - 1, -1, -1):
+                if ti >= len(cur) or oi >= len(cur[ti]['ops']):
+                    continue
+                trial = json.loads(json.dumps(cur))
+                del trial[ti]['ops'][oi]
+                got = fails(trial)
+                if got is not None:
+                    cur, progress = json.loads(json.dumps(got)), True
+        for ti in range(len(cur) - 2, 0, -1):
+            if ti < len(cur) - 1 and not cur[ti]['ops']:
+                trial = json.loads(json.dumps(cur))
+                del trial[ti]
+                got = fails(trial)
+                if got is not None:
+                    cur, progress = json.loads(json.dumps(got)), True
+    return cur
+
+
+def shrink_desc_for_history(desc, mode, history, construct, inst_seed, max_runs=40):
+    """Greedy one-element deletions in the description that keep the same failure under the same history."""
+    runs = [0]
+    cur = json.loads(json.dumps(desc))
+
+    def still(d):
+        runs[0] += 1
+        tmp = tempfile.mkdtemp(prefix='c10h_', dir=scratch())
+        try:
+            hh, f = resave_case(d, mode, tmp, trips=history, inst_seed=inst_seed)
+            return bool(f) and f['construct'] == construct and len(hh) == len(history)
+        except Exception:
+            return False
+        finally:
+            shutil.rmtree(tmp, ignore_errors=True)
+
+    progress = True
+    while progress and runs[0] < max_runs:
+        progress = False
+        for k in range(len(_lists_of(cur)) - 1, -1, -1):
+            if runs[0] >= max_runs:
+                break
+            trial = json.loads(json.dumps(cur))
+            lists = _lists_of(trial)
+            if k >= len(lists):
+                continue
+            lst, i = lists[k]
+            del lst[i]
+            if still(trial):
+                cur, progress = trial, True
+    return cur
+
+
+def resave_scenarios(ctx, out):
+    """Scenario family 'resave' (own PRNG stream)."""
+    ecore()
+    rng = common.rng_for(ctx.seed, 'C10:resave')
+    thorough = ctx.tier == 'thorough'
+    n = 1000 if thorough else 150
+    hard_stop = time.time() + (150 if thorough else 40)       # safety net only; the count decides
+    stats, modes, seen = {}, {}, {}
+    cases = trips_total = 0
+    tmp_root = tempfile.mkdtemp(prefix='c10e_', dir=scratch())
+    try:
+        for i in range(n):
+            if time.time() > hard_stop:
+                break
+            size = rng.choice([2, 3, 3, 4, 5, 6])
+            desc = gen_desc(rng, size)
+            mode = rng.choice(['original', 'original', 'reloaded'])
+            ntrips = rng.choice([3, 3, 4])
+            inst_seed = rng.randrange(1 << 30)
+            case_rng = random.Random(rng.randrange(1 << 62))
+            tmp = os.path.join(tmp_root, f'e{i}')
+            try:
+                history, f = resave_case(desc, mode, tmp, rng=case_rng, ntrips=ntrips, inst_seed=inst_seed,
+                                         stats=stats)
+            finally:
+                shutil.rmtree(tmp, ignore_errors=True)
+            cases += 1
+            modes[mode] = modes.get(mode, 0) + 1
+            trips_total += len(history)
+            if f and f['construct'] == 'first-save-or-load-raises':
+                stats['first_trip_fails(main family)'] = stats.get('first_trip_fails(main family)', 0) + 1
+                continue
+            if f:
+                key = (mode, f['construct'])
+                if key in seen:
+                    stats['repeat_failures'] = stats.get('repeat_failures', 0) + 1
+                    continue
+                seen[key] = True
+                small = shrink_history(desc, mode, history, f['construct'], inst_seed,
+                                       max_runs=120 if thorough else 50)
+                what = f['what']
+                sdesc = shrink_desc_for_history(desc, mode, small, f['construct'], inst_seed,
+                                                max_runs=150 if thorough else 60)
+                tmp = tempfile.mkdtemp(prefix='c10h_', dir=scratch())
+                try:
+                    _, f2 = resave_case(sdesc, mode, tmp, trips=small, inst_seed=inst_seed)
+                    if f2 and f2['construct'] == f['construct']:
+                        what, desc = f2['what'], sdesc
+                    else:
+                        small = history
+                except Exception:
+                    small = history
+                finally:
+                    shutil.rmtree(tmp, ignore_errors=True)
+                out.fail({'property': 'C10', 'clause': 'resave', 'construct': f['construct']},
+                         f'resave/{f["construct"]} ({mode} metamodel, edited and saved again through the same resource): '
+                         f'{what}; edits {[op for t in small for op in t["ops"]]}',
+                         {'scenario': 'resave', 'seed': ctx.seed, 'tier': ctx.tier, 'index': i, 'mode': mode,
+                          'desc': desc, 'inst_seed': inst_seed, 'history': small})
+    finally:
+        shutil.rmtree(tmp_root, ignore_errors=True)
+    out.coverage['resave_cases'] = cases
+    out.coverage['resave_trips_saved_reloaded_compared'] = trips_total
+    out.coverage['resave_modes'] = modes
+    out.coverage['resave_ops_by_kind'] = dict(sorted((k, v) for k, v in stats.items() if k not in
+                                                     ('trips', 'repeat_failures', 'first_trip_fails(main family)')))
+    out.coverage['resave_repeat_failures_of_a_reported_kind'] = stats.get('repeat_failures', 0)
+    out.coverage['resave_first_trip_fails(main family)'] = stats.get('first_trip_fails(main family)', 0)
+
+
+# --------------------------------------------------------------------------- enumeration literals with display strings
+#
+# An EEnumLiteral has a name (an identifier), a value and a `literal` display string that may differ from the name in any
+# way (dashes, spaces, case, empty).  The three survive the .ecore trip, and attribute values of instance models (single,
+# many, default value literal) that hold such literals come back as the same literals when the document saved against
+# the original metamodel is loaded against the reloaded one, and the other way round.
+
+LIT_NAMES = ['OPEN', 'IN_PROGRESS', 'DONE', 'Low', 'high', 'MEDIUM', 'a', 'B2', 'in_progress', 'Open', 'ON_HOLD', 'x_1',
+             'Cancelled', 'TO_DO']
+LIT_FIXED = ['two words', 'dash-ed', 'Ünï cödé', '42', 'a<b & "c"', "it's", 'UPPER lower', 'x=1;y', '-', '']
+
+
+def _attr(name, ty, **kw):
+    d = {'kind': 'attr', 'name': name, 'type': ty, 'lower': 0, 'upper': 1, 'ordered': True, 'unique': True,
+         'iD': False, 'derived': False, 'transient': False, 'changeable': True, 'volatile': False,
+         'unsettable': False, 'defaultValueLiteral': None, 'annotations': []}
+    d.update(kw)
+    return d
+
+
+def gen_enum_desc(rng, stats=None):
+    """A small metamodel around 1-2 enumerations whose literals carry display strings."""
+    root = {'name': rng.choice(['en', 'track']), 'nsURI': 'http://verif/c10/enum/' + rng.choice(['a', 'b.c']),
+            'nsPrefix': 'en', 'annotations': [], 'classifiers': [], 'subpackages': []}
+    sub = None
+    if rng.random() < 0.4:
+        sub = {'name': 'lits', 'nsURI': root['nsURI'] + '/lits', 'nsPrefix': 'lits', 'annotations': [],
+               'classifiers': [], 'subpackages': []}
+        root['subpackages'].append(sub)
+    enums = []
+    for ei in range(rng.choice([1, 1, 2])):
+        n = rng.randint(2, 5)
+        names = rng.sample(LIT_NAMES, n)
+        values = list(range(n)) if rng.random() < 0.4 else rng.sample(range(-3, 40), n)
+        taken = set(names)               # a display string never reads as another literal's name or display string
+        lits = []
+        for nm, v in zip(names, values):
+            r = rng.random()
+            if r < 0.2:
+                lit = None
+            elif r < 0.28:
+                lit = nm
+            else:
+                cand = [nm.lower().replace('_', '-'), nm.replace('_', ' ').title(), nm.lower(), nm.upper(),
+                        nm.swapcase(), nm.replace('_', ' '), nm + '-' + str(v)] + LIT_FIXED
+                cand = [c for c in cand if c == nm or c not in taken]
+                lit = rng.choice(cand)
+            if lit is not None:
+                taken.add(lit)
+            lits.append([nm, v, lit])
+            if stats is not None:
+                k = 'unset' if lit is None else 'equal-to-name' if lit == nm else 'empty' if lit == '' else \
+                    'case-only' if lit.lower() == nm.lower() else 'with-space' if ' ' in lit else \
+                    'with-dash' if '-' in lit else 'other'
+                stats[k] = stats.get(k, 0) + 1
+        e = {'kind': 'enum', 'name': f'St{ei}', 'literals': lits,
+             'default': rng.choice(names) if rng.random() < 0.4 else None, 'annotations': []}
+        where = sub if sub is not None and rng.random() < 0.6 else root
+        where['classifiers'].append(e)
+        enums.append((('lits/' if where is sub else '') + e['name'], e))
+    holder = _cls('Holder')
+    item = _cls('Item', supers=['Holder'] if rng.random() < 0.5 else [])
+    root['classifiers'] += [holder, item]
+    k = 0
+    for ci, c in enumerate([holder, item]):
+        epath, e = enums[ci % len(enums)]
+        names = [l[0] for l in e['literals']]
+        shapes = ['one', 'many'] if ci == 0 else []
+        shapes += rng.sample(['one', 'many', 'few', 'dflt', 'bag', 'req'], rng.randint(0 if ci else 1, 3))
+        for sh in shapes:
+            k += 1
+            nm = f'{sh}{k}'
+            if sh == 'one':
+                c['features'].append(_attr(nm, epath))
+            elif sh == 'many':
+                c['features'].append(_attr(nm, epath, upper=-1, ordered=rng.random() < 0.8))
+            elif sh == 'few':
+                c['features'].append(_attr(nm, epath, upper=rng.choice([2, 3])))
+            elif sh == 'bag':
+                c['features'].append(_attr(nm, epath, upper=-1, unique=False))
+            elif sh == 'req':
+                c['features'].append(_attr(nm, epath, lower=1))
+            else:
+                c['features'].append(_attr(nm, epath, defaultValueLiteral=rng.choice(names)))
+        if rng.random() < 0.7:
+            c['features'].append(_attr(f'label{ci}', 'ecore:EString'))
+    holder['features'].append(_ref('kids', 'Item', upper=-1, containment=True))
+    if rng.random() < 0.5:
+        item['features'].append(_ref('peer', 'Holder', upper=rng.choice([1, -1])))
+    return root
+
+
+def literal_table(roots):
+    """name/value/literal of every enumeration literal, read through attributes, eGet and the enum's own lookups"""
+    E = ecore()
+    out = {}
+    for p in all_packages(roots):
+        for c in p.eClassifiers:
+            if not isinstance(c, E.EEnum):
+                continue
+            rows = []
+            for l in c.eLiterals:
+                by_name = c.getEEnumLiteral(l.name)
+                rows.append({'name': l.name, 'value': l.value, 'literal': l.literal,
+                             'eGet': [l.eGet('name'), l.eGet('value'), l.eGet('literal')],
+                             'found_by_name': by_name is l, 'name_in_enum': l.name in c,
+                             'string_codec_round_trip': c.from_string(c.to_string(l)) is l,
+                             'is_default': c.default_value is l})
+            out[qname(c)] = rows
+    return out
+
+
+def _count_lit_values(dump, acc):
+    for o in dump:
+        for v in o['attrs'].values():
+            for x in (v if isinstance(v, list) else [v]):
+                if isinstance(x, str) and x.startswith('lit:'):
+                    acc[0] += 1
+        for kids in o['kids'].values():
+            _count_lit_values(kids, acc)
+
+
+def enum_case(desc, inst_seed, tmp, stats=None):
+    """-> list of {'construct','what'}"""
+    from pyecore.resources import URI
+    fails = []
+    os.makedirs(tmp, exist_ok=True)
+    orig = build(desc)
+    sig0 = signature_all(orig)
+    tab0 = literal_table(orig)
+    try:
+        reloaded, path = save_reload(orig, tmp)
+    except Exception as e:
+        return [{'construct': 'save-or-load-raises', 'what': f'{type(e).__name__}: {e}'[:300]}]
+    diffs = sig_diff(sig0, signature_all(reloaded))
+    if diffs:
+        lab, pair, p, a, b = diffs[0]
+        fails.append({'construct': 'signature-' + lab,
+                      'what': f'{pair[0]}.{pair[1]} at {p}: original {a} / reloaded {b} ({len(diffs)} place(s))'})
+    tab1 = literal_table(reloaded)
+    if tab0 != tab1 and not diffs:
+        k = next(k for k in tab0 if tab0[k] != tab1.get(k))
+        fails.append({'construct': 'literal-table', 'what': f'{k}: original {_short(tab0[k])} / reloaded '
+                                                            f'{_short(tab1.get(k))}'})
+    bad = [(k, r) for k, rows in tab0.items() for r in rows
+           if not (r['found_by_name'] and r['name_in_enum'] and r['string_codec_round_trip'])]
+    if bad:
+        fails.append({'construct': 'literal-lookup', 'what': f'original metamodel: {bad[0][0]}: {_short(bad[0][1])}'})
+
+    def cross(src_mm, dst_mm, seed, tag):
+        """a model over src_mm, saved against src_mm, loaded against dst_mm: the same canonical dump"""
+        try:
+            roots = gen_instances(src_mm, random.Random(seed), nper=3)
+        except Exception as e:
+            fails.append({'construct': f'instantiate-{tag}', 'what': f'{type(e).__name__}: {e}'[:300]})
+            return
+        if not roots:
+            return
+        ipath = os.path.join(tmp, f'inst_{tag}.xmi')
+        rs = fresh_rset()
+        register(rs, src_mm)
+        res = rs.create_resource(URI(ipath))
+        res.extend(roots)
+        want = dump_model(roots)
+        try:
+            res.save()
+            rs1 = fresh_rset()
+            register(rs1, dst_mm)
+            got = dump_model(list(rs1.get_resource(URI(ipath)).contents))
+        except Exception as e:
+            got = ('raises', f'{type(e).__name__}: {e}'[:200])
+        if stats is not None:
+            stats['docs'] = stats.get('docs', 0) + 1
+            acc = [0]
+            _count_lit_values(want, acc)
+            stats['enum_values'] = stats.get('enum_values', 0) + acc[0]
+        if got != want:
+            fails.append({'construct': f'cross-load-{tag}',
+                          'what': f'model saved against the {tag.split("-to-")[0]} metamodel, loaded against the '
+                                  f'{tag.split("-to-")[1]} one, is not the model that was saved: '
+                                  + _first_dump_diff(want, got)})
+
+    cross(orig, reloaded, inst_seed, 'original-to-reloaded')
+    cross(reloaded, build(desc), inst_seed + 1, 'reloaded-to-original')
+    return fails
+
+
+def shrink_enum_desc(desc, inst_seed, construct, max_runs=40):
+    runs = [0]
+    cur = json.loads(json.dumps(desc))
+
+    def still(d):
+        runs[0] += 1
+        tmp = tempfile.mkdtemp(prefix='c10l_', dir=scratch())
+        try:
+            return any(f['construct'] == construct for f in enum_case(d, inst_seed, tmp))
+        except Exception:
+            return False
+        finally:
+            shutil.rmtree(tmp, ignore_errors=True)
+
+    progress = True
+    while progress and runs[0] < max_runs:
+        progress = False
+        for k in range(len(_lists_of(cur)) - 1, -1, -1):
+            if runs[0] >= max_runs:
+                break
+            trial = json.loads(json.dumps(cur))
+            lists = _lists_of(trial)
+            if k >= len(lists):
+                continue
+            lst, i = lists[k]
+            del lst[i]
+            if still(trial):
+                cur, progress = trial, True
+    return cur
+
+
+def enumlit_scenarios(ctx, out):
+    """Scenario family 'enumlit' (own PRNG stream)."""
+    ecore()
+    rng = common.rng_for(ctx.seed, 'C10:enumlit')
+    thorough = ctx.tier == 'thorough'
+    n = 2000 if thorough else 300
+    hard_stop = time.time() + (120 if thorough else 30)       # safety net only; the count decides
+    stats, kinds, seen = {}, {}, {}
+    cases = 0
+    tmp_root = tempfile.mkdtemp(prefix='c10l_', dir=scratch())
+    try:
+        for i in range(n):
+            if time.time() > hard_stop:
+                break
+            desc = gen_enum_desc(rng, kinds)
+            inst_seed = rng.randrange(1 << 30)
+            tmp = os.path.join(tmp_root, f'l{i}')
+            try:
+                fails = enum_case(desc, inst_seed, tmp, stats)
+            finally:
+                shutil.rmtree(tmp, ignore_errors=True)
+            cases += 1
+            for f in fails:
+                if f['construct'] in seen:
+                    stats['repeat_failures'] = stats.get('repeat_failures', 0) + 1
+                    continue
+                seen[f['construct']] = True
+                small = shrink_enum_desc(desc, inst_seed, f['construct'], max_runs=120 if thorough else 45)
+                tmp = tempfile.mkdtemp(prefix='c10l_', dir=scratch())
+                try:
+                    again = [g for g in enum_case(small, inst_seed, tmp) if g['construct'] == f['construct']]
+                finally:
+                    shutil.rmtree(tmp, ignore_errors=True)
+                what = again[0]['what'] if again else f['what']
+                out.fail({'property': 'C10', 'clause': 'enum-literal', 'construct': f['construct']},
+                         f'enum-literal/{f["construct"]}: {what}',
+                         {'scenario': 'enumlit', 'seed': ctx.seed, 'tier': ctx.tier, 'index': i,
+                          'desc': small if again else desc, 'inst_seed': inst_seed,
+                          'history': [['enum-metamodel', i], ['check', f['construct']]]})
+    finally:
+        shutil.rmtree(tmp_root, ignore_errors=True)
+    out.coverage['enumlit_cases'] = cases
+    out.coverage['enumlit_display_strings_by_kind'] = dict(sorted(kinds.items()))
+    out.coverage['enumlit_instance_documents_cross_loaded'] = stats.get('docs', 0)
+    out.coverage['enumlit_enum_attribute_values_compared'] = stats.get('enum_values', 0)
+    out.coverage['enumlit_repeat_failures_of_a_reported_kind'] = stats.get('repeat_failures', 0)
+
+
 # --------------------------------------------------------------------------- run / replay
 
 def sig_of(f):
@@ -1327,7 +2124,20 @@ def run(ctx, out):
         'repeat_failures_of_a_reported_kind': stats.get('repeat_failures', 0),
         'time_budget_s': budget,
     })
+    # --- scenario families with their own PRNG streams (replayed through common.scenario_replay)
+    for fam in (resave_scenarios, enumlit_scenarios):
+        fam(ctx, out)
+    out.coverage['evaluations'] += out.coverage.get('resave_cases', 0) + out.coverage.get('enumlit_cases', 0)
+    out.coverage['rule'] += ('; plus one edit-and-resave case (a generated metamodel edited by a random refactoring '
+                             'history and saved 3-4 times through one resource object, each save reloaded and compared) '
+                             'and one enumeration case (literals with display strings: .ecore trip, instance documents '
+                             'cross-loaded both ways) per resave_cases / enumlit_cases')
     out.assumptions += [
+        'edit-and-resave histories keep names unique (every new name is fresh), remove only classifiers nothing points '
+        'to, and do not take a renamed feature out of its class (that raises today: the Python mirror of a dynamic '
+        'class keeps a renamed feature under its old name -- an edit-API defect outside C10, reported)',
+        'enumeration display strings never read as the name or display string of another literal of the same '
+        'enumeration (unambiguous under name-based and display-string-based lookup alike)',
         'generated metamodels: unique names per package across kinds and per class hierarchy across features and '
         'operations (the C11 fragment hazard is kept out), supertypes listed so that C3 succeeds, required operation '
         'parameters first, no generics/type parameters, annotations carry source+details only',
@@ -1343,6 +2153,8 @@ def replay(ctx, rep):
     ecore()
     case = rep['case']
     sig = rep.get('signature', {})
+    if case.get('scenario'):
+        return common.scenario_replay(ctx, rep, {'resave': resave_scenarios, 'enumlit': enumlit_scenarios})
     tmp = tempfile.mkdtemp(prefix='c10p_', dir=scratch())
     try:
         if case.get('kind') == 'corpus':
